@@ -8,11 +8,16 @@ using namespace vf;
 static std::string g_tmp;
 
 // ---------------------------------------------------------------- instrumented allocator (passed through the Alloc template parameter)
+// An AllocState is one arena: a ledger of the blocks it handed out. Several arenas of one history share an AllocCtl, which numbers the allocations of the
+// whole history (fault injection: "the k-th allocation fails"). A block must come back to the arena it came from (allocators that compare unequal).
+struct AllocCtl { long nalloc = 0, fail_at = -1, failed = 0; bool sticky = false; };
 struct AllocState {
-	std::map<void *, size_t> live; size_t live_bytes = 0, peak = 0; long nalloc = 0, fail_at = -1, failed = 0, size_mismatch = 0; bool sticky = false;
+	std::map<void *, size_t> live; size_t live_bytes = 0, peak = 0; long size_mismatch = 0; AllocCtl own; AllocCtl *ctl = nullptr;
 	std::vector<std::string> errors;
+	AllocCtl &C() { return ctl ? *ctl : own; }
 	void reset_peak() { peak = live_bytes; }
 };
+static std::vector<AllocState *> g_arenas; // arenas of the running history (to recognise a block handed to the wrong one)
 static AllocState g_default_state; // used by default-constructed allocators (e.g. the one a moved-from table is left with)
 template <class T> struct CA {
 	typedef T value_type; AllocState *st;
@@ -20,15 +25,18 @@ template <class T> struct CA {
 	template <class U> CA(const CA<U> &o) : st(o.st) {}
 	AllocState &S() const { return st ? *st : g_default_state; }
 	T *allocate(size_t n) {
-		AllocState &s = S(); long idx = s.nalloc++;
-		if (s.fail_at >= 0 && (idx == s.fail_at || (s.sticky && idx > s.fail_at))) { s.failed++; throw std::bad_alloc(); }
+		AllocState &s = S(); AllocCtl &c = s.C(); long idx = c.nalloc++;
+		if (c.fail_at >= 0 && (idx == c.fail_at || (c.sticky && idx > c.fail_at))) { c.failed++; throw std::bad_alloc(); }
 		size_t b = n * sizeof(T); void *p = malloc(b ? b : 1); if (!p) throw std::bad_alloc();
 		s.live[p] = b; s.live_bytes += b; if (s.live_bytes > s.peak) s.peak = s.live_bytes; return (T *)p;
 	}
 	void deallocate(T *p, size_t n) {
 		AllocState &s = S(); if (!p) { if (n) s.errors.push_back("deallocate(nullptr," + std::to_string(n) + ")"); return; }
 		auto it = s.live.find((void *)p);
-		if (it == s.live.end()) { AllocState &o = (&s == &g_default_state) ? s : g_default_state; auto it2 = o.live.find((void *)p); if (&o != &s && it2 != o.live.end()) { s.errors.push_back("block returned to a different allocator than it came from"); o.live_bytes -= it2->second; o.live.erase(it2); free(p); return; } s.errors.push_back("deallocate of a block that is not live (double free or foreign pointer)"); return; }
+		if (it == s.live.end()) {
+			std::vector<AllocState *> others = g_arenas; others.push_back(&g_default_state);
+			for (AllocState *o : others) { if (o == &s) continue; auto it2 = o->live.find((void *)p); if (it2 != o->live.end()) { s.errors.push_back("block returned to a different allocator than it came from"); o->live_bytes -= it2->second; o->live.erase(it2); free(p); return; } }
+			s.errors.push_back("deallocate of a block that is not live (double free or foreign pointer)"); return; }
 		if (it->second != n * sizeof(T)) s.size_mismatch++;
 		s.live_bytes -= it->second; s.live.erase(it); free(p);
 	}
@@ -130,16 +138,24 @@ static void use_table(ATable &T, Rng &r) { // touches everything a user can touc
 struct Seq { std::vector<std::vector<uint64_t>> ops; }; // op = {kind, target, other, p1, p2}
 
 // executes one history; returns number of allocations made through the state; violations are reported inside
-static long run_history(const Args &a, uint64_t seqseed, long cs, AllocState &st, bool faulted, std::string &hist) {
+static long run_history(const Args &a, uint64_t seqseed, long cs, AllocCtl &st, bool faulted, std::string &hist) {
 	Rng r(a.seed * 1000003 + seqseed, "C20seq", (uint64_t)cs);
 	int nobj = r.range(1, 3), nops = 6 + (int)r.below(20);
 	std::vector<ATable *> obj(nobj, nullptr);
-	auto fresh = [&]() { return new ATable(CA<void>(&st)); };
+	// arenas: in half of the histories every object slot has its own arena (allocator instances that compare unequal; tables migrate between slots by
+	// move construction / assignment and take their arena along), plus one for temporaries; otherwise one arena serves all
+	bool multi = r.coin(0.5); std::vector<std::unique_ptr<AllocState>> arenas; for (int i = 0; i <= nobj; i++) { arenas.emplace_back(new AllocState); arenas.back()->ctl = &st; }
+	g_arenas.clear(); for (auto &ar : arenas) g_arenas.push_back(ar.get());
+	auto arena = [&](int slot) { return arenas[multi ? slot : 0].get(); };
+	auto fresh = [&](int slot) { return new ATable(CA<void>(arena(slot))); };
+	if (!faulted) count(multi ? "histories-with-one-arena-per-object" : "histories-with-a-shared-arena");
+	bool keyless = r.coin(0.35); // the file read by this history carries no auxiliary keys
 	// files used by this history
-	Spec g1; { g1.order = {(unsigned)r.below(3), (unsigned)r.below(3)}; g1.knots = {gen_knots(r, g1.order[0], 2 * g1.order[0] + 2 + (int)r.below(3), 1, 1.0, 0.0, true), gen_knots(r, g1.order[1], 2 * g1.order[1] + 2 + (int)r.below(3), 1, 1.0, 1.0, true)}; g1.coef.resize(g1.ncoef()); for (auto &c : g1.coef) c = (float)(r.U() - 0.5); g1.aux = {{"NUM", "17"}, {"LONGERKEYWORD", "text"}}; g1.periods = {0.5, 0.0}; }
+	Spec g1; { g1.order = {(unsigned)r.below(3), (unsigned)r.below(3)}; g1.knots = {gen_knots(r, g1.order[0], 2 * g1.order[0] + 2 + (int)r.below(3), 1, 1.0, 0.0, true), gen_knots(r, g1.order[1], 2 * g1.order[1] + 2 + (int)r.below(3), 1, 1.0, 1.0, true)}; g1.coef.resize(g1.ncoef()); for (auto &c : g1.coef) c = (float)(r.U() - 0.5); if (!keyless) g1.aux = {{"NUM", "17"}, {"LONGERKEYWORD", "text"}}; g1.periods = {0.5, 0.0}; }
 	Bytes gb = mkfits(g1); std::string good = g_tmp + "/h_good." + std::to_string(getpid()) + ".fits", bad = g_tmp + "/h_bad." + std::to_string(getpid()) + ".fits", outp = g_tmp + "/h_out." + std::to_string(getpid()) + ".fits";
 	write_file(good, gb.p, gb.n); write_file(bad, gb.p, gb.n * 2 / 3 + 11);
-	for (auto &o : obj) o = fresh();
+	for (int i = 0; i < nobj; i++) obj[i] = fresh(i);
+	auto refill = [&]() { for (int i = 0; i < nobj; i++) if (!obj[i]) obj[i] = fresh(i); };
 	auto fail = [&](const std::string &key) { viol("C20:" + key, "{\"faulted\":" + std::string(faulted ? "true" : "false") + ",\"fail_at_allocation\":" + std::to_string(st.fail_at) + ",\"history\":" + jstr(hist.substr(hist.size() > 1100 ? hist.size() - 1100 : 0)) + "}"); };
 	for (int op = 0; op < nops && out().nviol < 4; op++) {
 		int kind = (int)r.below(20); int ti = (int)r.below(nobj), tj = (int)r.below(nobj); ATable *&T = obj[ti];
@@ -148,16 +164,16 @@ static long run_history(const Args &a, uint64_t seqseed, long cs, AllocState &st
 			Snap af = snap(*T); if (!(snap_eq(af, before) || (af.ndim == 0 && af.aux.empty()) || (af.ndim == 0 && af.aux == before.aux && before.ndim == 0))) fail(std::string(name) + ":failed-operation-left-object-changed-but-not-empty"); };
 		try {
 			switch (kind) {
-			case 0: { hist += "reset" + std::to_string(ti) + ";"; phase_log("destroy+construct"); delete T; T = nullptr; T = fresh(); break; }
+			case 0: { hist += "reset" + std::to_string(ti) + ";"; phase_log("destroy+construct"); delete T; T = nullptr; T = fresh(ti); break; }
 			case 1: { int w = (int)r.below(3); hist += std::string("pathctor") + std::to_string(ti) + (w == 0 ? "(good);" : w == 1 ? "(truncated);" : "(missing);"); phase_log("path constructor"); delete T; T = nullptr;
-				try { T = new ATable(w == 0 ? good : w == 1 ? bad : g_tmp + "/nonexistent.fits", CA<void>(&st)); } catch (std::exception &e) { threw = true; }
-				if (!T) T = fresh(); if (w == 0 && !threw) { Snap s2 = snap(*T); if (s2.ndim != 2) fail("path-constructor:good-file-not-loaded"); } if (w != 0 && !threw) fail("path-constructor:bad-file-accepted"); if (w == 0 && threw && st.failed == failed0) fail("path-constructor:good-file-rejected"); break; }
+				try { T = new ATable(w == 0 ? good : w == 1 ? bad : g_tmp + "/nonexistent.fits", CA<void>(arena(ti))); } catch (std::exception &e) { threw = true; }
+				if (!T) T = fresh(ti); if (w == 0 && !threw) { Snap s2 = snap(*T); if (s2.ndim != 2) fail("path-constructor:good-file-not-loaded"); } if (w != 0 && !threw) fail("path-constructor:bad-file-accepted"); if (w == 0 && threw && st.failed == failed0) fail("path-constructor:good-file-rejected"); break; }
 			case 2: case 3: { int w = (int)r.below(3); bool mem = kind == 3; hist += std::string(mem ? "readmem" : "read") + std::to_string(ti) + (w == 0 ? "(good" : w == 1 ? "(truncated" : "(missing") + (populated ? ",populated);" : ");"); phase_log(mem ? "read_fits_mem" : "read_fits");
 				std::vector<unsigned char> cp((unsigned char *)gb.p, (unsigned char *)gb.p + (w == 0 ? gb.n : w == 1 ? gb.n * 2 / 3 + 11 : 100));
 				try { if (mem) T->read_fits_mem(cp.data(), cp.size()); else T->read_fits(w == 0 ? good : w == 1 ? bad : g_tmp + "/nonexistent.fits"); } catch (std::exception &e) { threw = true; }
 				if (populated) { if (!threw) fail("read:populated-table-silently-overwritten"); else if (!snap_eq(snap(*T), before)) fail("read:refused-read-changed-populated-table"); }
 				else if (threw) { post_failed("read"); if (w == 0 && st.failed == failed0) fail("read:good-file-rejected"); }
-				else { if (w != 0) fail("read:bad-file-accepted"); Snap s2 = snap(*T); if (s2.ndim != 2 || s2.order[0] != g1.order[0] || s2.aux.size() != 2) fail("read:loaded-table-differs-from-file"); }
+				else { if (w != 0) fail("read:bad-file-accepted"); Snap s2 = snap(*T); if (s2.ndim != 2 || s2.order[0] != g1.order[0] || s2.aux.size() != g1.aux.size()) fail("read:loaded-table-differs-from-file"); }
 				break; }
 			case 4: case 5: { // fit good/bad, into empty or populated
 				int nd = r.range(1, 2); bool bad = r.coin(0.3); std::vector<uint32_t> ord(nd), por(nd); std::vector<std::vector<double>> kn(nd), co(nd); std::vector<double> lam(nd); size_t npt = 1;
@@ -172,7 +188,7 @@ static long run_history(const Args &a, uint64_t seqseed, long cs, AllocState &st
 				else if (threw) { post_failed("fit"); if (!bad && st.failed == failed0) fail("fit:valid-arguments-rejected"); }
 				else { if (bad) fail("fit:bad-arguments-accepted"); if (T->get_ndim() != (unsigned)nd) fail("fit:result-has-wrong-dimension"); }
 				break; }
-			case 6: case 7: { static const char *ks[] = {"NUM", "NEWKEY", "ANOTHERLONGKEYWORD", "bad key", "NAXIS"}; std::string k = ks[r.below(5)]; bool valid = k != "bad key" && k != "NAXIS"; hist += "wkey" + std::to_string(ti) + "(" + k + ");"; phase_log("write_key");
+			case 6: case 7: { static const char *ks[] = {"NUM", "NEWKEY", "ANOTHERLONGKEYWORD", "bad key", "NAXIS"}; std::string k = ks[r.below(5)]; bool valid = k != "bad key" && k != "NAXIS"; hist += "wkey" + std::to_string(ti) + "(" + k + ");"; phase_log("write_key"); if (!faulted && keyless && populated && before.aux.empty()) count("write_key:first-key-on-a-populated-table-without-keys");
 				std::string v = r.coin(0.5) ? std::to_string(r.below(1000)) : std::string(1 + r.below(30), 'z');
 				try { T->write_key(k.c_str(), v); } catch (std::exception &e) { threw = true; }
 				Snap af = snap(*T);
@@ -200,7 +216,7 @@ static long run_history(const Args &a, uint64_t seqseed, long cs, AllocState &st
 				obj[tj] = new ATable(std::move(*T)); Snap src = snap(*T), dst = snap(*obj[tj]);
 				if (!snap_eq(dst, before)) fail("move-constructor:target-differs-from-source"); if (src.ndim != 0 || !src.aux.empty()) fail("move-constructor:moved-from-table-is-not-empty");
 				break; }
-			case 13: case 14: { if (ti == tj) break; hist += "moveassign" + std::to_string(ti) + "<-" + std::to_string(tj) + ";"; phase_log("move assignment"); Snap other = snap(*obj[tj]);
+			case 13: case 14: { if (ti == tj) break; hist += "moveassign" + std::to_string(ti) + "<-" + std::to_string(tj) + ";"; phase_log("move assignment"); Snap other = snap(*obj[tj]); if (!faulted && multi) count((populated || other.ndim || !before.aux.empty() || !other.aux.empty()) ? "move-assignments-between-arenas:storage-held" : "move-assignments-between-arenas:both-empty");
 				*T = std::move(*obj[tj]); if (!snap_eq(snap(*T), other)) fail("move-assignment:target-differs-from-source");
 				Snap src = snap(*obj[tj]); if (!(src.ndim == 0 && src.aux.empty()) && !snap_eq(src, before)) fail("move-assignment:source-neither-empty-nor-holding-the-target's-former-contents"); if (before.ndim == 0 && before.aux.empty() && !(src.ndim == 0 && src.aux.empty())) fail("move-assignment:moved-from-table-is-not-empty");
 				break; }
@@ -208,15 +224,15 @@ static long run_history(const Args &a, uint64_t seqseed, long cs, AllocState &st
 			case 16: { bool mem = r.coin(0.5); hist += std::string(mem ? "writemem" : "write") + std::to_string(ti) + ";"; phase_log(mem ? "write_fits_mem" : "write_fits"); std::pair<void *, size_t> w(nullptr, 0);
 				try { if (mem) w = T->write_fits_mem(); else T->write_fits(outp); } catch (std::exception &e) { threw = true; }
 				if (!populated && !threw) fail("write:empty-table-written"); if (populated && threw) fail("write:populated-table-could-not-be-written");
-				if (!threw) { ATable R{CA<void>(&st)}; bool rd = true; try { if (mem) R.read_fits_mem(w.first, w.second); else R.read_fits(outp); } catch (std::exception &e) { rd = false; } if (rd && !(R == *T) ) { bool nan = false; for (float c : before.coef) if (std::isnan(c)) nan = true; if (!nan) fail("write:written-table-reads-back-different"); } if (!rd && st.failed == failed0) fail("write:written-table-unreadable"); }
+				if (!threw) { ATable R{CA<void>(arena(nobj))}; bool rd = true; try { if (mem) R.read_fits_mem(w.first, w.second); else R.read_fits(outp); } catch (std::exception &e) { rd = false; } if (rd && !(R == *T) ) { bool nan = false; for (float c : before.coef) if (std::isnan(c)) nan = true; if (!nan) fail("write:written-table-reads-back-different"); } if (!rd && st.failed == failed0) fail("write:written-table-unreadable"); }
 				free(w.first); unlink(outp.c_str()); if (!snap_eq(snap(*T), before)) fail("write:writing-changed-the-table"); break; }
 			case 17: case 18: { hist += "use" + std::to_string(ti) + ";"; phase_log("getters+evaluation"); std::string wf = wellformed(*T); if (!wf.empty()) fail("state:table-not-well-formed:" + wf); use_table(*T, r); break; }
 			default: { if (!populated) { hist += "grideval" + std::to_string(ti) + "(empty-table);"; phase_log("grideval on empty table"); std::vector<std::vector<double>> g0; try { auto res = T->grideval(g0); } catch (std::exception &e) { threw = true; } if (!threw) fail("grideval:empty-table-accepted"); break; }
 				if (before.coef.size() > 600) break; hist += "grideval" + std::to_string(ti) + ";"; phase_log("grideval"); std::vector<std::vector<double>> g(before.ndim); for (unsigned d = 0; d < before.ndim; d++) for (int i = 0; i < 2; i++) g[d].push_back(before.knots[d][0] + (before.knots[d].back() - before.knots[d][0]) * r.U()); try { auto res = T->grideval(g); } catch (std::exception &e) { threw = true; } if (threw && st.failed == failed0) fail("grideval:threw-without-fault"); if (!snap_eq(snap(*T), before)) fail("grideval:changed-the-table"); break; }
 			}
-		} catch (std::bad_alloc &e) { if (!faulted || st.failed == failed0) fail("bad_alloc-escaped-without-injected-fault"); else { if (!T) T = fresh(); hist += "[bad_alloc];"; for (auto *&o : obj) if (!o) o = fresh(); } }
-		catch (std::exception &e) { fail(std::string("unexpected-exception:") + std::string(e.what()).substr(0, 60)); for (auto *&o : obj) if (!o) o = fresh(); }
-		for (auto &e : st.errors) fail("allocator:" + e); st.errors.clear();
+		} catch (std::bad_alloc &e) { if (!faulted || st.failed == failed0) fail("bad_alloc-escaped-without-injected-fault"); else { hist += "[bad_alloc];"; refill(); } }
+		catch (std::exception &e) { fail(std::string("unexpected-exception:") + std::string(e.what()).substr(0, 60)); refill(); }
+		for (auto &ar : arenas) { for (auto &e : ar->errors) fail("allocator:" + e); ar->errors.clear(); }
 		for (auto &e : g_default_state.errors) fail("allocator(default-constructed):" + e); g_default_state.errors.clear();
 		// whatever happened, every object must be usable
 		phase_log("post-op validity sweep");
@@ -224,23 +240,26 @@ static long run_history(const Args &a, uint64_t seqseed, long cs, AllocState &st
 	}
 	phase_log("destroy all objects"); for (auto *&o : obj) { delete o; o = nullptr; }
 	free(gb.p); unlink(good.c_str()); unlink(bad.c_str()); unlink(outp.c_str());
-	for (auto &e : st.errors) fail("allocator:" + e); st.errors.clear();
-	if (!st.live.empty()) { size_t b = 0; for (auto &kv : st.live) b += kv.second; viol("C20:leak:allocator-blocks-not-returned", "{\"blocks\":" + std::to_string(st.live.size()) + ",\"bytes\":" + std::to_string(b) + ",\"faulted\":" + (faulted ? "true" : "false") + ",\"fail_at_allocation\":" + std::to_string(st.fail_at) + ",\"history\":" + jstr(hist.substr(hist.size() > 1100 ? hist.size() - 1100 : 0)) + "}"); for (auto &kv : st.live) free(kv.first); st.live.clear(); }
+	for (auto &ar : arenas) { for (auto &e : ar->errors) fail("allocator:" + e); ar->errors.clear(); }
+	size_t nlive = 0, blive = 0; long smm = 0; for (auto &ar : arenas) { nlive += ar->live.size(); for (auto &kv : ar->live) blive += kv.second; smm += ar->size_mismatch; }
+	if (!faulted && smm) count("deallocations-with-a-size-different-from-the-allocation(not-judged)", smm);
+	if (nlive) { viol("C20:leak:allocator-blocks-not-returned", "{\"blocks\":" + std::to_string(nlive) + ",\"bytes\":" + std::to_string(blive) + ",\"zero_length_blocks_included\":true,\"faulted\":" + (faulted ? "true" : "false") + ",\"fail_at_allocation\":" + std::to_string(st.fail_at) + ",\"history\":" + jstr(hist.substr(hist.size() > 1100 ? hist.size() - 1100 : 0)) + "}"); for (auto &ar : arenas) { for (auto &kv : ar->live) free(kv.first); ar->live.clear(); } }
+	g_arenas.clear();
 	if (!g_default_state.live.empty()) { viol("C20:leak:default-allocator-blocks-not-returned", "{\"history\":" + jstr(hist.substr(0, 900)) + "}"); for (auto &kv : g_default_state.live) free(kv.first); g_default_state.live.clear(); g_default_state.live_bytes = 0; }
 	return st.nalloc;
 }
 static void run_C20(const Args &a, long cs) {
 	count("histories");
-	AllocState st0; std::string hist;
+	AllocCtl st0; std::string hist;
 	long N = run_history(a, 0, cs, st0, false, hist);
-	count("allocations-in-unfaulted-histories", N); if (st0.size_mismatch) count("deallocations-with-a-size-different-from-the-allocation(not-judged)", st0.size_mismatch);
+	count("allocations-in-unfaulted-histories", N);
 	distinct(hash_mix(hash_str(hist), 20));
 	if (out().nviol) return;
 	std::string lk = leak_check(g_tmp); if (!lk.empty()) { viol("C20:leak(LSan):" + lk, "{\"history\":" + jstr(hist.substr(0, 1200)) + "}"); finish_early_and_exit(); }
 	// fault enumeration: the k-th allocation through the table's allocator throws
 	long maxf = a.tier == "thorough" ? 400 : 60; long step = N > maxf ? (N + maxf - 1) / maxf : 1;
 	for (long k = (long)(cs % step); k < N && out().nviol < 3; k += step) {
-		AllocState st; st.fail_at = k; st.sticky = (k % 5 == 4); std::string h2;
+		AllocCtl st; st.fail_at = k; st.sticky = (k % 5 == 4); std::string h2;
 		context("fault at allocation " + std::to_string(k) + (st.sticky ? " (and all later ones)" : ""));
 		run_history(a, 0, cs, st, true, h2);
 		count("faulted-histories"); if (st.failed) count("faults-fired"); distinct(hash_mix(hash_str(h2), (uint64_t)k + 1000));
